@@ -26,6 +26,15 @@ func (rsc) Close() error { return nil }
 // P/m0..m{N-1}; contents derive from D (tag+i, varying lengths).
 func archiveMembers(op Op) []Op {
 	var out []Op
+	if op.W == 1 {
+		// size sweep: op.N members of consecutive sizes op.O, op.O+1, ... with highly compressible
+		// content (a unique marker followed by padding)
+		for i := 0; i < op.N; i++ {
+			d := Data{Len: int(op.O) + i, Kind: "pad", Tag: op.D.Tag + uint32(i)}
+			out = append(out, Op{K: "writefile", P: path.Join(op.P, fmt.Sprintf("s%d", i)), D: &d})
+		}
+		return out
+	}
 	for i := 0; i < op.N; i++ {
 		d := *op.D
 		d.Tag += uint32(i)
